@@ -101,7 +101,7 @@ class VLoop(asyncio.BaseEventLoop):
     """
 
     def __init__(self, sched: Scheduler, *, preempt_timers: bool = False,
-                 timer_dev_horizon: float = 10.0, split_exec: bool = False):
+                 timer_dev_horizon: float = 10.0, split_exec: bool = False, sticky_ops: bool = False):
         super().__init__()
         self.sched = sched
         self._vtime = 0.0
@@ -116,6 +116,8 @@ class VLoop(asyncio.BaseEventLoop):
         self.hooks_before_op: list[Callable[[ExtOp], None]] = []
         self.hooks_after_op: list[Callable[[ExtOp], None]] = []
         self.extra_events: Callable[[], list[tuple[str, Callable[[], None]]]] | None = None
+        self.sticky_ops = sticky_ops  # scenario option: external operations passed over by a deviation stay postponed
+        self.demoted_ops: set = set()
         self.after_step: Callable[[list[str], int], None] | None = None  # (labels of the enabled events, index taken)
         self.set_exception_handler(self._on_exc)
         self._thread_id = threading.get_ident()
@@ -255,7 +257,11 @@ class VLoop(asyncio.BaseEventLoop):
                 ev.append((lab, th))
         if self._ready:
             ev.append(("R", self.run_ready_one))
+        demoted = []
         for op in self.deliverable_ops():
+            if self.sticky_ops and id(op) in self.demoted_ops:
+                demoted.append(op)  # passed over by an earlier deviation: stays postponed (see below)
+                continue
             if self.split_exec and not op.executed:
                 ev.append((f"X{op.chan}:{op.label}", (lambda o=op: self.execute_op(o))))
                 ev.append((f"Xe{op.chan}:{op.label}", (lambda o=op: self.execute_op(o, deliver=False))))
@@ -270,6 +276,8 @@ class VLoop(asyncio.BaseEventLoop):
         for lab, th, first in extras:
             if first == "late":
                 ev.append((lab, th))
+        for op in demoted:
+            ev.append((f"X{op.chan}:{op.label}", (lambda o=op: (self.demoted_ops.discard(id(o)), self.execute_op(o)))))
         if allow_timers:
             when = self.next_timer_when()
             if when is not None:
@@ -290,6 +298,14 @@ class VLoop(asyncio.BaseEventLoop):
         if self.steps > self.max_steps:
             raise StepCap(f"step cap {self.max_steps} hit at vtime {self._vtime}")
         c = self.sched.choose("step", len(ev), tuple(e[0] for e in ev)) if len(ev) > 1 else 0
+        if self.sticky_ops and c > 0:
+            # a deviation passes over the external operations listed before the chosen event: they stay
+            # postponed until chosen or until nothing else can run (one deviation, not one per step)
+            live = {id(op): op for op in self.ext_ops}
+            labs = [e[0] for e in ev[:c]]
+            for op in self.deliverable_ops():
+                if f"X{op.chan}:{op.label}" in labs and id(op) not in self.demoted_ops:
+                    self.demoted_ops.add(id(op))
         ev[c][1]()
         if self.after_step is not None:
             self.after_step([e[0] for e in ev], c)
